@@ -65,6 +65,11 @@ CHECKS = {
    text="TLC explores all histories (<=4/5 ops) over the argument palette {-1,0,n-1,n,n+5} x {0, existing, new frequency} checking the partitions and that standard channels only change `enabled`; seeded histories of up to 30 Add/Disable/Enable calls with arbitrary ints on all 14 bands are recorded with the full projection (every channel, five index lists, lookups) after every call and TLC steps the model alongside, demanding equality, the partitions on the observed lists, errors (never panics) for bad indices, matching lookups, the CFList rule per protocol version, and that CFLists, RX2/ping-slot/beacon frequencies and channels encode into join-accepts/MAC commands and decode back.",
    note="Trusted: TLC, ChannelPlan.tla, MACCommands/Frame tables, snapshot hook. Known finding: ISM2400 frequencies are not encodable outside NewChannelReq.",
    ref="3/C15"),
+ "C16": dict(
+   technique="independent device/NS/AS model of the join procedure in TLA+ (JoinProc.tla); symbolic TLC model of two interleaved join-server transactions; every answer of the real http.Handler validated by TLC with in-TLA+ AES, AES-CMAC and RFC 3394",
+   text="TLC explores all interleavings of two join-server transactions (five tasks each) over the scenario lattice (join/rejoin x OptNeg x MIC right/wrong x known/unknown x KEK wrapped or not) on a symbolic instance and checks result codes, mirroring, that the device decrypts the answer / accepts its MIC / finds the requested fields, key agreement and key separation; seeded join-requests and rejoin-requests type 0/1/2 (random keys, EUIs, nonces, NetIDs, DLSettings, RxDelay, CFList, 16/24/32-byte NS/AS KEKs or none) go through the real handler in sequential and concurrent batches of up to 64, and TLC plays the device and the NS/AS on every answer with concrete crypto.",
+   note="Trusted: TLC, JoinProc.tla/CryptoGen.tla, in-TLA+ AES/CMAC/KeyWrap, harness. Known finding: rejoin answers carry 1.0-derived keys.",
+   ref="3/C16"),
  "C17": dict(
    technique="backend-interface wire text (decimal numerals, hex, RFC 3339) and RFC 3394 key wrap in TLA+; numeral identities model-checked by TLC; recorded encodings/decodings, struct documents and envelopes validated by TLC",
    text="TLC checks on the specification that the decimal numeral of n/10^6 (n/100) denotes n over dense sweeps and that RFC 3394 unwrap inverts wrap and rejects flipped bits (16/24/32-byte KEKs); the real Percentage (0..1000 exhaustive) and Frequency (every multiple of 100 kHz up to 2^32 Hz, neighbours, random) encodings are parsed digit by digit in TLA+ and must denote and decode to the value; hex strings (0x, upper case, malformed), ISO 8601 timestamps with zone offsets (to one second), all 20 payload structs with random optional fields (decode then re-encode must give the same document) and key envelopes incl. tampered ciphertexts and wrong KEKs (in-TLA+ AES key wrap decides success) are validated.",
